@@ -1,6 +1,6 @@
 CONSTANTS
-  Names = {"Long", "OvA", "OvB"}
-  Overlap = {{"OvA", "OvB"}}
+  Names = {"Long", "OvA", "OvB", "OvC"}
+  Overlap = {{"OvA", "OvB"}, {"OvB", "OvC"}}
   MaxReq = 4
   MaxLevel = 9
 SPECIFICATION Spec
